@@ -44,6 +44,8 @@ class Codec:
     def loads(self, x):
         if isinstance(x, tuple) and x and x[0] == 'pickled':
             return x[1]
+        if isinstance(x, tuple) and x and x[0] == 'poison':
+            raise x[1]('crafted pickle')          # a well-formed compressed stream whose unpickling fails in some way
         raise ValueError('not a pickle')
 
     # zlib
@@ -228,10 +230,10 @@ def T1(inp, k, sends, reads, lmax=LQUICK):
                                                      wire_left=show(b.wire.slen())))
 
 
-@obligation('T2', props=('C13',), quick=[dict(k=2, bad=0, what='len'), dict(k=2, bad=1, what='len'), dict(k=2, bad=0, what='payload'), dict(k=2, bad=1, what='payload')],
-            thorough=[dict(k=3, bad=b, what=w) for b in (0, 1, 2) for w in ('len', 'payload')],
+@obligation('T2', props=('C13',), quick=[dict(k=2, bad=0, what='len'), dict(k=2, bad=1, what='len'), dict(k=2, bad=0, what='payload'), dict(k=2, bad=1, what='payload'), dict(k=2, bad=0, what='unpickle'), dict(k=2, bad=1, what='unpickle')],
+            thorough=[dict(k=3, bad=b, what=w) for b in (0, 1, 2) for w in ('len', 'payload', 'unpickle')],
             stubs=_STUBS,
-            bounds='k<=3 frames, one of them corrupted: its length field replaced by any 32-bit value != the true length, or its payload replaced by undecodable bytes of any length 1..100000; 2 read events of <=2 symbolic fragments, then drain')
+            bounds='k<=3 frames, one of them corrupted: its length field replaced by any 32-bit value != the true length, or its payload replaced by undecodable bytes of any length 1..100000, or by a valid compressed stream whose unpickling raises one of 9 exception types; 2 read events of <=2 symbolic fragments, then drain')
 def T2(inp, k, bad, what):
     """a frame with an invalid length field or an undecodable payload: no exception escapes the event handler, the frames
     before it are delivered once and in order, the corrupt frame is never delivered, and nothing is delivered twice or out of order."""
@@ -253,6 +255,10 @@ def T2(inp, k, bad, what):
             fld_bad = fld
         if i == bad and what == 'payload':
             pay = Blob.fresh(('junk', i), L)
+        if i == bad and what == 'unpickle':
+            errs = (ValueError, EOFError, IndexError, AttributeError, ModuleNotFoundError, KeyError, TypeError, ImportError, OverflowError)
+            codec.pays[('pay', i)] = (L, ('poison', errs[inp.choice('exc_kind', len(errs))]))      # decompresses fine, unpickling raises
+            pay = Blob.fresh(('pay', i), L)
         wire = wire + codec.pack('i', fld) + pay
     b.wire = wire
     exc = None
